@@ -69,7 +69,10 @@ int main(int argc, char ** argv)
       double a = sx::fresh_in("a", -2, 2, false);
       double w = sx::fresh_in("w", 0.01, 4, false);
       double b = a + w;
+      // the requested step need not divide the interval: h = w / (N + d), d in [-0.2, 0.7] (mode 1), so that the
+      // routine's own step (b-a)/(2m) differs from the requested one
       double h = w / double(N);
+      if (arg(1, 0) == 1) { double d = sx::fresh_in("d", -0.2, 0.7, false); h = w / (double(N) + d); }
       double r = bxdecay0::decay0_tsimpr(cubic, a, b, h, nullptr);
       auto P = [&](double x) { return g_c[0] * x + g_c[1] * x * x / 2. + g_c[2] * x * x * x / 3. + g_c[3] * x * x * x * x / 4.; };
       oblige(sx::b_close(r, P(b) - P(a), 1e-9, 0), "Simpson rule exact on cubics", unit);
